@@ -372,6 +372,11 @@ func (s *Sim) internalHashes() []u.Hash {
 }
 
 func (s *Sim) obsProve(req []u.Hash) {
+	// the reference prover's proof is also given to every verifier (C02: honest proofs are
+	// accepted everywhere and the stand-alone verifier reports exactly the touched trees)
+	if hp, err := s.prover.Prove(copyHashes(req)); err == nil {
+		s.obsHonestVerify(req, hp)
+	}
 	for _, in := range s.insts {
 		var p u.Proof
 		var err error
@@ -413,6 +418,38 @@ func (s *Sim) obsVerify(hashes []u.Hash, targets []uint64, proofHashes []u.Hash)
 			res = "err"
 		}
 		emit("obs %s verify %s %s %s %s", in.label, hxs(hashes), us(targets), hxs(proofHashes), res)
+	}
+}
+
+// obsHonestVerify feeds an honest (hashes, proof) to the stand-alone verifier and to every
+// instance; lines are `obs <impl> hverify …` so that the driver applies the completeness
+// oracle (must be accepted; exact tree list for the stand-alone verifier).
+func (s *Sim) obsHonestVerify(hashes []u.Hash, proof u.Proof) {
+	st := u.Stump{Roots: copyHashes(s.stump.Roots), NumLeaves: s.stump.NumLeaves}
+	var idx []int
+	var err error
+	r := guard(watchdog, func() {
+		idx, err = u.Verify(st, copyHashes(hashes), u.Proof{Targets: copyU64(proof.Targets), Proof: copyHashes(proof.Proof)})
+	})
+	res := r
+	if r == "ok" {
+		if err != nil {
+			res = "err"
+		} else {
+			res = "ok " + ints(idx)
+		}
+	}
+	emit("obs stump hverify %s %s %s %s", hxs(hashes), us(proof.Targets), hxs(proof.Proof), res)
+	for _, in := range s.insts {
+		var verr error
+		r := guard(watchdog, func() {
+			verr = in.acc.Verify(copyHashes(hashes), u.Proof{Targets: copyU64(proof.Targets), Proof: copyHashes(proof.Proof)}, false)
+		})
+		res := r
+		if r == "ok" && verr != nil {
+			res = "err"
+		}
+		emit("obs %s hverify %s %s %s %s", in.label, hxs(hashes), us(proof.Targets), hxs(proof.Proof), res)
 	}
 }
 
